@@ -122,6 +122,8 @@ inline std::string dump(const Structure& st, const DumpOpt& o = DumpOpt()) {
                           std::to_string(q(a.aniso.u11, 1e4)) + " " + std::to_string(q(a.aniso.u22, 1e4)) + " " +
                           std::to_string(q(a.aniso.u33, 1e4)) + " " + std::to_string(q(a.aniso.u12, 1e4)) + " " +
                           std::to_string(q(a.aniso.u13, 1e4)) + " " + std::to_string(q(a.aniso.u23, 1e4));
+          if (a.calc_flag != CalcFlag::NotSet || a.tls_group_id >= 0)
+            t += " cf " + std::to_string((int)a.calc_flag) + " tls " + std::to_string(a.tls_group_id);
           if (o.serial) t += " ser " + std::to_string(a.serial);
           L(t);
         }
